@@ -32,15 +32,17 @@ NUM: /[0-9]+/
 ''', ['a', 'key', ':', '7', ',', '[', ']', '+', '-', 'b']),
     # a ?rule's multi-child alternative next to an inlined rule with the same children; tokens that contain non-identifier characters
     'show': ('''
-start: stmt+
-stmt: "show" _pair ";" -> show | "sum" sum ";" -> s | "let" VAR "be" DIM+ ";" -> let
+start: (assign | show | let)+
+assign: NAME "=" sum ";"
+show: "show" _pair ";" | "show" sum ";"
+let: "let" VAR "be" DIM+ ";"
 _pair: NAME "," NAME
 ?sum: NAME | NAME "+" NAME
 NAME: /[a-z]+/
 VAR: /\\$[a-z]+/
 DIM: /[0-9]+\\.[0-9]+[a-z]+/
 %ignore " "
-''', ['show', 'sum', 'a', ',', '+', ';', 'let', '$x', 'be', '1.5em']),
+''', ['show', '=', 'a', ',', '+', ';', 'let', '$x', 'be', '1.5em']),
     'json': ('''
 ?start: value
 ?value: dict | list | STR | NUM | "true" -> t | "null" -> n
@@ -85,6 +87,7 @@ if P:
     K = len(LEXEMES)
     PIN = P.get('pin')
     REAL = P.get('mode') == 'realised'
+    SEEN = []
 
 
 def _body(rec, cs):
@@ -95,6 +98,7 @@ def _body(rec, cs):
         rec['nontrivial'] = False
         return True
     idx = list(hs.CUR['kinds'])
+    rec['replay_args'] = [idx]
     text = ' '.join(LEXEMES[i] for i in idx)
     try:
         tree = LARK.parse(text)
@@ -119,6 +123,23 @@ def _body(rec, cs):
             return hs.fail(rec, 'reconstructed text is not accepted by the parser', text=text, reconstructed=out, exc=repr(e))
         if tree2 != LARK.parse(text):
             return hs.fail(rec, 'reconstructed text parses to a different tree', text=text, reconstructed=out, got=hs.plain(tree2), want=hs.plain(tree))
+        # one Reconstructor used on several trees: a fresh instance first reconstructs an earlier accepted input of this slice, then
+        # this one (the per-rule matchers are built lazily and cached, so the order of use matters); histories of length 2, the first
+        # element taken from the inputs this slice has accepted so far
+        for prev in SEEN[-25:]:
+            r2 = Reconstructor(LARK)
+            r2.reconstruct(LARK.parse(prev))
+            out2 = r2.reconstruct(LARK.parse(text))
+            rec['count']['pair_histories'] = rec['count'].get('pair_histories', 0) + 1
+            try:
+                ok = LARK.parse(out2) == LARK.parse(text)
+            except UnexpectedInput:
+                ok = False
+            if not ok:
+                return hs.fail(rec, 'after reconstructing another tree first, the reconstructed text no longer re-parses to the same tree',
+                               first=prev, text=text, reconstructed=out2)
+        if text not in SEEN:
+            SEEN.append(text)
     return True
 
 
@@ -137,6 +158,8 @@ def plan(tier, seed):
         k = len(lex)
         for parser in ('lalr', 'earley'):
             Lg = 5 if quick else 7
+            if g == 'show' and parser == 'lalr':
+                Lg += 1         # 'a = a + a ;' has six lexemes
             for pin in [None]:
                 slices.append({'id': '%s:%s:L%d' % (g, parser, Lg), 'mode': 'realised', 'params': {'g': g, 'parser': parser, 'L': Lg, 'pin': pin, 'mode': 'realised'},
                                'timeout': 400 if quick else 3000, 'bound': {'lexemes': Lg, 'kinds': k}})
